@@ -16,13 +16,26 @@
                            ('/', and '\' only when b's scheme is special)
      abs_shape txt         txt starts with a non-special scheme, or a special scheme followed by >= 2 slashes,
                            or "file:" followed by two slashes  (decided on the text)
-     mr_ok b t             the positive domain of the make_relative inverse law (Model/KnownC08.v) *)
+     mr_ok b t             the positive domain of the make_relative inverse law (Model/KnownC08.v)
+     hier_url pre se ue hs he hi po segs last q f
+                           the record  pre "/" seg "/" ... "/" last ["?" q]["#" f]  with path_start = |pre| and
+                           query_start / fragment_start at the '?' / '#'  (Proofs/C08_RelMr.v)
+     rel_ok ...            pre carries "://" at offset se or is just "scheme:", the scheme is not "file", the base's segments are free
+                           of '/', the target's segments / query / fragment are what the parser stores (clean for
+                           PATH / QUERY-or-SPECIAL_QUERY / FRAGMENT, no dot segment, no '\' under a special scheme),
+                           the target is shorter than 2^32  (Proofs/C08_RelLaw.v)
+     rel_canon b t         the same as ONE computable test on two arbitrary records: both are of the hier_url form
+                           (decided by re-building the record from its own accessors), base "scheme://..." or
+                           "scheme:/path" and not file, target canonical, the seven stored values in front of the path agree, mr_ok b t
+                           (Proofs/C08_RelCanon.v) *)
 From Coq Require Import String.
 From RU Require Import Base.Prelude Base.Utf8 Base.Utf8Facts Model.AsciiSet Gen.Tables Model.PercentEncoding
   Model.HostT Model.UrlRecord Model.Parser Model.Setters Model.WF Model.MakeRelative Model.KnownC08
   Proofs.ListN Proofs.C02_Enc Proofs.C02_Parts Proofs.C02_Opaque Proofs.C02_Path Proofs.C02_PathL1 Proofs.C02_Reach
   Proofs.C03_WF Proofs.C06_List Proofs.C06_WFI Proofs.C06_Tail
-  Proofs.C08_Input Proofs.C08_Simple Proofs.C08_Contain Proofs.C08_NoAuth Proofs.C08_Absolute Proofs.C08_Relative Proofs.C08_RelEval.
+  Proofs.C08_Input Proofs.C08_Simple Proofs.C08_Contain Proofs.C08_NoAuth Proofs.C08_Absolute Proofs.C08_Relative Proofs.C08_RelEval
+  Proofs.C08_RelPath Proofs.C08_RelJoin Proofs.C08_RelMr Proofs.C08_RelLaw Proofs.C08_RelCanon Proofs.C08_RelNoAuth.
+From RU Require Properties.C02.
 Open Scope N_scope.
 Open Scope list_scope.
 
@@ -181,6 +194,28 @@ Check C08_absolute_partial : forall dbg hp hpo hd b u,
   parse_url dbg hp hpo hd None (Some b) (utf8_lossy (ser u)) = POk u.
 Print Assumptions C08_absolute_partial.
 
+(* URLs with authority: the shape premise is free (trimming cannot reach "scheme://", whatever follows), so for
+   them the law is EXACTLY C02's re-parse identity - nothing else is missing.  (C02 in this tree proves re-parsing
+   for the two classes below only; any further class it proves transfers through this theorem.) *)
+Theorem C08_absolute_shape_any : forall sch rest, scheme_canon sch = true ->
+  abs_shape (sch ++ 58 :: 47 :: 47 :: rest) = true.
+Proof. exact abs_shape_slashes_any. Qed.
+Print Assumptions C08_absolute_shape_any.
+Theorem C08_absolute_auth_partial : forall dbg hp hpo hd b u sch rest,
+  Fixpoint_of_reparse dbg hp hpo hd u -> utf8_lossy (ser u) = sch ++ 58 :: 47 :: 47 :: rest -> scheme_canon sch = true ->
+  join dbg hp hpo hd b (utf8_lossy (ser u)) = POk u.
+Proof. exact absolute_of_reparse_auth. Qed.
+Check C08_absolute_auth_partial : forall dbg hp hpo hd b u sch rest,
+  parse_url dbg hp hpo hd None None (utf8_lossy (ser u)) = POk u ->
+  utf8_lossy (ser u) = sch ++ 58 :: 47 :: 47 :: rest -> scheme_canon sch = true ->
+  parse_url dbg hp hpo hd None (Some b) (utf8_lossy (ser u)) = POk u.
+Print Assumptions C08_absolute_auth_partial.
+Example C08_absolute_auth_inhabited :
+  let u := hier_url (B "http://h") 4 7 7 8 HI_Domain None [B "a"] (B "b") (Some (B "q")) (Some (B "f")) in
+  toy_parse "http://h/a/b?q#f" = POk u /\ Fixpoint_of_reparse true toy_hp toy_hp toy_hd u
+  /\ utf8_lossy (ser u) = B "http" ++ 58 :: 47 :: 47 :: B "h/a/b?q#f" /\ scheme_canon (B "http") = true.
+Proof. vm_compute. repeat split. Qed.
+
 (* the two classes where C02 proved re-parsing: opaque paths and authority-less '/'-led paths *)
 Theorem C08_absolute_opaque : forall dbg hp hpo hd ovr b sch P q f, opaque_ok sch P q f ->
   parse_url dbg hp hpo hd ovr (Some b) (opaque_ser sch P q f) = POk (opaque_url sch P q f).
@@ -205,7 +240,7 @@ Definition C08_relative_statement : Prop :=
 (* proved part: for a target with the same path (and, as make_relative requires, the same scheme, host and
    port) the reference is exactly ["?" query]["#" fragment] of the target - so its resolution against the base
    is the one C08_empty / C08_frag / C08_query describe (the base's query is kept when the target has none:
-   class 41).  The general inverse law (references with '..' and path segments) is not proved. *)
+   class 41).  (Older, weaker result; the law itself: C08_relative_hier / C08_relative_canon below.) *)
 Theorem C08_relative_partial : forall dbg b t sch h p q f,
   cannot_be_a_base b = Some false -> cannot_be_a_base t = Some false ->
   scheme b = Some sch -> scheme t = Some sch ->
@@ -215,6 +250,111 @@ Theorem C08_relative_partial : forall dbg b t sch h p q f,
   make_relative dbg b t = Some (Some (qf_text q f)).
 Proof. exact make_relative_same_path. Qed.
 Print Assumptions C08_relative_partial.
+
+(* PROVED: the inverse law itself, for every scheme except "file", base and target with authority
+   ("scheme://...") or without ("scheme:/path", no "/." marker), the base with or without query and fragment: same directory (reference = last segment),
+   sub-directory, '../' steps, "/" at the root, "?q", "#f" and the empty reference - for both build
+   configurations and arbitrary host functions.  Explicit form: *)
+Theorem C08_relative_hier : forall dbg hp hpo hd pre se ue hs he hi po bsegs blast bq bf tsegs tlast tq tf r,
+  rel_ok pre se bsegs blast tsegs tlast tq tf ->
+  mr_ok (hier_url pre se ue hs he hi po bsegs blast bq bf) (hier_url pre se ue hs he hi po tsegs tlast tq tf) = true ->
+  make_relative dbg (hier_url pre se ue hs he hi po bsegs blast bq bf)
+                    (hier_url pre se ue hs he hi po tsegs tlast tq tf) = Some (Some r) ->
+  join dbg hp hpo hd (hier_url pre se ue hs he hi po bsegs blast bq bf) r
+  = POk (hier_url pre se ue hs he hi po tsegs tlast tq tf).
+Proof. exact relative_hier. Qed.
+Check C08_relative_hier : forall dbg hp hpo hd pre se ue hs he hi po bsegs blast bq bf tsegs tlast tq tf r,
+  rel_ok pre se bsegs blast tsegs tlast tq tf ->
+  mr_ok (hier_url pre se ue hs he hi po bsegs blast bq bf) (hier_url pre se ue hs he hi po tsegs tlast tq tf) = true ->
+  make_relative dbg (hier_url pre se ue hs he hi po bsegs blast bq bf)
+                    (hier_url pre se ue hs he hi po tsegs tlast tq tf) = Some (Some r) ->
+  parse_url dbg hp hpo hd None (Some (hier_url pre se ue hs he hi po bsegs blast bq bf)) r
+  = POk (hier_url pre se ue hs he hi po tsegs tlast tq tf).
+Print Assumptions C08_relative_hier.
+
+(* ... and on arbitrary records, the domain being one computable test (what is missing towards
+   C08_relative_statement: that every parse result with authority passes hier_canon / rel_target_ok - C02's L1
+   for URLs with authority; for authority-less ones C02_L1_noauth has it - and file URLs) *)
+Theorem C08_relative_canon : forall dbg hp hpo hd b t r,
+  rel_canon b t = true -> make_relative dbg b t = Some (Some r) ->
+  join dbg hp hpo hd b r = POk t.
+Proof. exact relative_canon. Qed.
+Check C08_relative_canon : forall dbg hp hpo hd b t r,
+  (hier_canon b && hier_canon t && rel_base_ok b && rel_target_ok (b_st b) t && main_eqb b t && mr_ok b t) = true ->
+  make_relative dbg b t = Some (Some r) ->
+  parse_url dbg hp hpo hd None (Some b) r = POk t.
+Print Assumptions C08_relative_canon.
+
+(* ... and C08_relative_statement ITSELF (parse results, no canonical-form premise) for the class where C02 proved
+   the canonical form of every parse result: non-special URLs without authority, "scheme:/path"
+   (Properties.C02.noauth_input decides the class on the input text) *)
+Theorem C08_relative_noauth : forall dbg hp hpo hd schb bsegs blast bq bf scht tsegs tlast tq tf r,
+  C02_Path.noauth_ok schb bsegs blast bq bf -> C02_Path.noauth_ok scht tsegs tlast tq tf ->
+  mr_ok (noauth_url schb (path_text bsegs blast) bq bf) (noauth_url scht (path_text tsegs tlast) tq tf) = true ->
+  make_relative dbg (noauth_url schb (path_text bsegs blast) bq bf) (noauth_url scht (path_text tsegs tlast) tq tf)
+  = Some (Some r) ->
+  join dbg hp hpo hd (noauth_url schb (path_text bsegs blast) bq bf) r
+  = POk (noauth_url scht (path_text tsegs tlast) tq tf).
+Proof. exact relative_noauth. Qed.
+Print Assumptions C08_relative_noauth.
+
+Theorem C08_relative_noauth_parsed : forall dbg hp hpo hd bi ti b t r,
+  usv_list bi -> usv_list ti ->
+  Properties.C02.noauth_input bi = true -> Properties.C02.noauth_input ti = true ->
+  parse_url dbg hp hpo hd None None bi = POk b -> parse_url dbg hp hpo hd None None ti = POk t ->
+  mr_ok b t = true -> make_relative dbg b t = Some (Some r) ->
+  join dbg hp hpo hd b r = POk t.
+Proof.
+  intros dbg hp hpo hd bi ti b t r Hub Hut Cb Ct Pb Pt Hok Hmr.
+  destruct (Properties.C02.noauth_input_inv bi Cb) as (schb & remb & remb' & B1 & B2 & B3 & B4).
+  destruct (Properties.C02.noauth_input_inv ti Ct) as (scht & remt & remt' & T1 & T2 & T3 & T4).
+  exact (relative_noauth_parsed dbg hp hpo hd bi ti schb remb remb' scht remt remt' b t r
+           Hub Hut B1 B2 B3 B4 T1 T2 T3 T4 Pb Pt Hok Hmr).
+Qed.
+Check C08_relative_noauth_parsed : forall dbg hp hpo hd bi ti b t r,
+  usv_list bi -> usv_list ti ->
+  Properties.C02.noauth_input bi = true -> Properties.C02.noauth_input ti = true ->
+  parse_url dbg hp hpo hd None None bi = POk b -> parse_url dbg hp hpo hd None None ti = POk t ->
+  mr_ok b t = true -> make_relative dbg b t = Some (Some r) ->
+  parse_url dbg hp hpo hd None (Some b) r = POk t.
+Print Assumptions C08_relative_noauth_parsed.
+Example C08_relative_noauth_inhabited :
+  Properties.C02.noauth_input (B "web+demo:/a/b/c?bq") = true /\ Properties.C02.noauth_input (B "web+demo:/a/d/e#f") = true
+  /\ mr_holds "web+demo:/a/b/c?bq" "web+demo:/a/d/e#f" "../d/e#f" = true
+  /\ Properties.C02.noauth_input (B "a:/x") = true /\ Properties.C02.noauth_input (B "a:/") = true
+  /\ mr_holds "a:/x" "a:/" "/" = true.
+Proof. vm_compute. repeat split. Qed.
+
+(* non-vacuity: pairs of parse results inside rel_canon (with the reference make_relative answers), and the
+   explicit form of one pair *)
+Example C08_relative_canon_inhabited :
+  rel_canon_on "http://127.0.0.1:8080/test/" "http://127.0.0.1:8080/test" = true
+  /\ mr_answer "http://127.0.0.1:8080/test/" "http://127.0.0.1:8080/test" "../test" = true
+  /\ rel_canon_on "http://127.0.0.1:8080/test/bla/" "http://127.0.0.1:8080/test2/video" = true
+  /\ mr_answer "http://127.0.0.1:8080/test/bla/" "http://127.0.0.1:8080/test2/video" "../../test2/video" = true
+  /\ rel_canon_on "http://h/a/b.html?c=d" "http://h/a/b.html?e=f" = true
+  /\ rel_canon_on "http://h/a/b?q#f" "http://h/a/b?q" = true
+  /\ rel_canon_on "a://h/x/y" "a://h/x/z#f" = true
+  /\ rel_canon_on "http://u:p@h:81/a/f" "http://u:p@h:81/" = true
+  /\ mr_answer "http://u:p@h:81/a/f" "http://u:p@h:81/" "../" = true
+  /\ rel_canon_on "ws://h/f?bq" "ws://h/" = true
+  /\ mr_answer "ws://h/f?bq" "ws://h/" "/" = true
+  /\ rel_canon_on "non-spec://h/a/b/c/d" "non-spec://h/a/x%20y/z\w?q=\#f" = true
+  /\ mr_answer "non-spec://h/a/b/c/d" "non-spec://h/a/x%20y/z\w?q=\#f" "../../x%20y/z\w?q=\#f" = true
+  /\ rel_canon_on "http://h/a/b" "http://h/a/b#f" = true
+  /\ rel_canon_on "http://h/a/b#x" "http://h/a/b" = true
+  /\ rel_canon_on "a:/x/y" "a:/x/z#f" = true /\ mr_answer "a:/x/y" "a:/x/z#f" "z#f" = true
+  /\ rel_canon_on "web+demo:/a/b/c?bq" "web+demo:/a/d/" = true /\ mr_answer "web+demo:/a/b/c?bq" "web+demo:/a/d/" "../d/" = true
+  /\ rel_canon_on "a:/x" "a:/" = true /\ mr_answer "a:/x" "a:/" "/" = true.
+Proof. exact rel_canon_inhabited. Qed.
+Example C08_relative_hier_inhabited :
+  rel_ok (B "http://h") 4 [B "a"; B "b"] (B "f") [B "a"; B "c"] (B "g") (Some (B "q")) None
+  /\ toy_parse "http://h/a/b/f" = POk (hier_url (B "http://h") 4 7 7 8 HI_Domain None [B "a"; B "b"] (B "f") None None)
+  /\ toy_parse "http://h/a/c/g?q" = POk (hier_url (B "http://h") 4 7 7 8 HI_Domain None [B "a"; B "c"] (B "g") (Some (B "q")) None)
+  /\ make_relative true (hier_url (B "http://h") 4 7 7 8 HI_Domain None [B "a"; B "b"] (B "f") None None)
+                        (hier_url (B "http://h") 4 7 7 8 HI_Domain None [B "a"; B "c"] (B "g") (Some (B "q")) None)
+     = Some (Some (B "../c/g?q")).
+Proof. exact rel_ok_inhabited. Qed.
 
 (* every excluded class of MR_ok contains a pair of well-formed parse results on which make_relative answers
    Some(r) and join(b, r) <> t *)
